@@ -20,6 +20,11 @@ func (p *Path) now() *smt.T {
 	if p.clock != nil {
 		p.addPC(smt.Le(p.clock, t))
 	}
+	if p.clock0 == nil {
+		p.clock0 = t
+	} else if p.clockHorizon != nil {
+		p.addPC(smt.Le(t, smt.Add(p.clock0, p.clockHorizon)))
+	}
 	p.clock = t
 	return t
 }
@@ -128,6 +133,12 @@ func registerTime(e *Engine) {
 	e.on("time.NewTimer", func(fr *Frame, a []Value) Value {
 		z := zero(e.namedType("time", "Timer")).(Struct)
 		z[0] = after(fr, a[0].(*smt.T))
+		return newCell(z)
+	})
+	// AfterFunc: the callback is never run (a timer that has not fired yet)
+	e.on("time.AfterFunc", func(fr *Frame, a []Value) Value {
+		e.noteUse("model: time.AfterFunc callbacks never fire within the run")
+		z := zero(e.namedType("time", "Timer")).(Struct)
 		return newCell(z)
 	})
 	e.on("(*time.Timer).Stop", func(fr *Frame, a []Value) Value { return smt.False })
